@@ -84,6 +84,7 @@ func wsPayloadClass(frame []byte, proto string) string {
 }
 
 func wsCase(url string, e *env, proto string, phase string, msgType int, frame []byte, desc string) {
+	announce("ws %s %s-init frame %q (%s)", proto, phase, frame, desc)
 	mu.Lock()
 	e.recovers = 0
 	e.panics = nil
